@@ -203,6 +203,29 @@ def gqrs_cross_sections():
     prove("no-particle-type-rejected", raises("ValueError", lambda: k.cross_section))
 
 
+@harness(clause="cross-sections")
+def cross_sections_follow_later_changes_of_the_particle():
+    """history: cross sections and lengths are read, then the particle's energy (and the interaction's kind) is changed,
+    then they are read again - the same values as an interaction freshly set up in the new state"""
+    E1, E2 = real("E1"), real("E2")
+    assume(And(E1 > 0, E2 > 0))
+    IT = resolve("pyrex.particle.Interaction.Type")
+    for cls, tag in ((GQRS, "GQRS"), (CTW, "CTW")):
+        for kn in ("electron_neutrino", "muon_antineutrino"):
+            i, p = _interaction(cls, kn, "charged_current", E1)
+            first = (i.cross_section, i.total_cross_section, i.interaction_length, i.total_interaction_length)
+            p.energy = E2
+            fresh, _ = _interaction(cls, kn, "charged_current", E2)
+            prove("%s %s:after-an-energy-change" % (tag, kn),
+                  And(eq(i.cross_section, fresh.cross_section), eq(i.total_cross_section, fresh.total_cross_section),
+                      eq(i.interaction_length, fresh.interaction_length), eq(i.total_interaction_length, fresh.total_interaction_length)))
+            i.kind = "nc"
+            fresh_nc, _ = _interaction(cls, kn, "neutral_current", E2)
+            prove("%s %s:after-a-change-of-kind" % (tag, kn),
+                  And(i.kind is IT.neutral_current, eq(i.cross_section, fresh_nc.cross_section),
+                      eq(i.interaction_length, fresh_nc.interaction_length), eq(i.total_cross_section, fresh_nc.total_cross_section)))
+
+
 def _ctw_sigma(kn, ik, E):
     return _interaction(CTW, kn, ik, E)[0]
 
